@@ -2,6 +2,7 @@ import Driver.C20
 import Driver.C08
 import Driver.C07
 import Driver.Wire
+import Driver.C13
 
 def dispatch (line : String) : String :=
   let toks := (line.trimAscii.toString.splitOn " ").filter (· ≠ "")
@@ -12,6 +13,7 @@ def dispatch (line : String) : String :=
     else if op.startsWith "c08." then Driver.C08.handle toks
     else if op.startsWith "c07." then Driver.C07.handle toks
     else if op.startsWith "w." then Driver.Wire.handle toks
+    else if op.startsWith "c13." then Driver.C13.handle toks
     else "bad-op"
 
 partial def loop (h : IO.FS.Stream) (out : IO.FS.Stream) : IO Unit := do
